@@ -1189,6 +1189,7 @@ fn lower_expr_with_args(
             let lines: Vec<&str> = text.lines().collect();
             let mut parts = Vec::with_capacity(lines.len());
             for line in lines {
+                let line = line.strip_suffix('\r').unwrap_or(line);
                 let trimmed = line.trim_start_matches([' ', '\t']);
                 let Some(rest) = trimmed.strip_prefix("\\\\") else {
                     ctx.push_error(Some(token.text_range()), "Invalid multiline string content");
